@@ -169,9 +169,25 @@ def run(ctx):
                              'dtype': [int(t) for t in disl.atoms.atype], 'btype': [int(t) for t in base.atoms.atype], 'ntypes': int(nt)})
                 # the boundary region alone, for a spread of widths (cheap records: the region surface sweeps through the atomic planes)
                 if variant == 1:
+                    # for the centred cubic cells the same problem is also posed on the conventional cell WITH its centring setting named
+                    # (the rotated cell is then built from the primitive cell) and the width given in units of the conventional a
+                    dc = None
+                    if cname in ('fcc', 'bcc') and (m, n) == ('y', 'z'):
+                        try:
+                            dc = Dislocation(ucell, Cs[cname], burgers=burgers, ξ_uvw=xi, slip_hkl=hkl, m=m, n=n, conventional_setting={'fcc': 'f', 'bcc': 'i'}[cname])
+                        except ValueError:
+                            dc = None
                     for wk in rng.uniform(1.0, 5.0, 6 if quick else 12):
                         for shp in ('box', 'cylinder'):
                             try:
+                                if dc is not None and rng.random() < .5:
+                                    mc_ = [2 * x for x in mults]
+                                    bs, dl = dc.monopole(sizemults=mc_, center=center, boundaryshape=shp, boundarywidth=float(wk) / ucell.box.a, boundaryscale=True, return_base_system=True)
+                                    dist = signed_region_distance(shp, bs.box, dc.lineindex, float(wk), dl.atoms.pos)
+                                    recs.append({'ev': 'boundary', 'tag': '%s:w%.4f:%s:scaled:setting' % (tag, wk, shp), 'dist': [int(round(v * S)) for v in dist], 'band': 8,
+                                                 'retyped': [bool(t > nt) for t in dl.atoms.atype], 'dtype': [int(t) for t in dl.atoms.atype],
+                                                 'btype': [int(t) for t in bs.atoms.atype], 'ntypes': int(nt)})
+                                    continue
                                 bs, dl = d.monopole(sizemults=list(mults), shiftindex=si, center=center, boundaryshape=shp, boundarywidth=float(wk), return_base_system=True)
                             except AssertionError as e:
                                 if 'radius must be positive' in str(e):      # the width leaves no region in this small system: refusal
